@@ -209,8 +209,10 @@ Definition check_discovery (c : cfg) (pdu resp : list N) : verdict :=
             end) (rh_chunks (length rest) size rest))
   | 8 :: _, 9 :: l :: rest =>                   (* Read By Type *)
       let ty := norm_type (skipn 5 pdu) in
+      (* a LAST entry cut short (the 8 bit size counter of collect_attributes, C01 (c') / C02) is judged on
+         what is there: its handle, its type and the prefix of its value; the framing itself is C01's clause *)
       ok (forallb (fun e =>
-            (length e =? N.to_nat l)%nat &&
+            (2 <=? length e)%nat &&
             match attr_at_handle c (rh_w16 e 0) with
             | Some (i, a) =>
                 listN_eqb (attr_type_bytes a) ty &&
